@@ -31,15 +31,24 @@ def gen_tree(rng, quick):
         for _ in range(rng.range(0 if p else 1, 4)):
             if len(nodes) >= maxn:
                 break
-            n = dict(id=len(nodes), parent=p, kind=rng.choice("mms"), depth=nodes[p]["depth"] + 1)
+            n = dict(id=len(nodes), parent=p, kind=rng.choice("mmspp"), depth=nodes[p]["depth"] + 1)
             nodes.append(n)
-            frontier.append(n["id"])
+            if n["kind"] != "p":                 # members spawned with a precondition are leaves
+                frontier.append(n["id"])
     order = rng.shuffle([n["id"] for n in nodes])
     c = rng.below(4)
     if c == 0:      # founders first
-        order = sorted(order, key=lambda i: (nodes[i]["kind"] == "m", rng.below(100)))
+        order = sorted(order, key=lambda i: (nodes[i]["kind"] in "mp", rng.below(100)))
     elif c == 1:    # leaves first (deepest first)
         order = sorted(order, key=lambda i: (-nodes[i]["depth"], rng.below(100)))
+    pm = [n["id"] for n in nodes if n["kind"] == "p"]
+    if pm and rng.chance(1, 2):
+        # precondition members outlive everybody else (their founder's function has long returned)
+        order = [i for i in order if i not in pm] + rng.shuffle(pm)
+    # token -id = the controller satisfies the precondition of member id: anywhere before the member's gate opens
+    for i in pm:
+        k = order.index(i)
+        order.insert(rng.choice([k, k, rng.range(0, k)]), -i)
     return dict(t="T", nodes=[dict(id=n["id"], parent=n["parent"], kind=n["kind"]) for n in nodes], order=order)
 
 
@@ -136,11 +145,12 @@ def oracle(c, il):
                 i, b = x.split(":")
                 i = int(i)
                 if b == "1":
-                    need = desc(i) if kind[i] != "m" else [i]
+                    need = desc(i) if kind[i] not in "mp" else [i]
                     miss = [j for j in need if j not in opened]
                     if miss:
-                        return (None, "location of %s %d full before %s finished" % ("founder" if kind[i] != "m" else "member", i, miss))
-            opened.add(int(p[1]))
+                        return (None, "location of %s %d full before %s finished" % ("founder" if kind[i] not in "mp" else "member", i, miss))
+            if int(p[1]) >= 0:
+                opened.add(int(p[1]))
         elif p[0] == "J":
             for x in p[1:]:
                 i, v = x.split(":")
@@ -190,7 +200,14 @@ CORPUS = [dict(t="V", kind="a", variant=0, shep=0, prefull=1, value=M64 - 1),
           dict(t="V", kind="v", variant=0, shep=0, prefull=0, value=5),
           dict(t="T", nodes=[dict(id=0, parent=-1, kind="t"), dict(id=1, parent=0, kind="m"), dict(id=2, parent=0, kind="s"),
                              dict(id=3, parent=2, kind="m"), dict(id=4, parent=2, kind="s"), dict(id=5, parent=4, kind="m")],
-               order=[0, 2, 4, 1, 3, 5])]
+               order=[0, 2, 4, 1, 3, 5]),
+          # a member spawned with an unmet precondition is a member from the spawn on: the founder's location stays empty
+          # while it has not finished (not even started) although the founder's function returned long ago
+          dict(t="T", nodes=[dict(id=0, parent=-1, kind="t"), dict(id=1, parent=0, kind="p"), dict(id=2, parent=0, kind="m")],
+               order=[0, 2, -1, 1]),
+          dict(t="T", nodes=[dict(id=0, parent=-1, kind="u"), dict(id=1, parent=0, kind="s"), dict(id=2, parent=1, kind="p"),
+                             dict(id=3, parent=1, kind="p")],
+               order=[1, 0, -3, 3, -2, 2])]
 
 
 def run(ctx):
@@ -224,7 +241,7 @@ def run(ctx):
             o = oracle(c, il)
             if o:
                 oracle_fail.append((o[0], o[1], dict(cd, impl=il)))
-            if (c["t"] == "V" and (c["prefull"] or c["value"] >= M60)) or (c["t"] == "T" and any(n["kind"] == "s" for n in c["nodes"])):
+            if (c["t"] == "V" and (c["prefull"] or c["value"] >= M60)) or (c["t"] == "T" and any(n["kind"] in "sp" for n in c["nodes"])):
                 nontrivial.add(json.dumps(c, sort_keys=True))
             if len(samples) < 3 and c["t"] == "T" and len(c["nodes"]) > 6:
                 samples.append(dict(cd, impl=(il or [])[:4]))
